@@ -182,7 +182,9 @@ def checkMerge (p : Json) : List Json :=
   let cs := (getArr p "caches").map decCache
   let res := getObj p "result"
   let obsErr := getStr res "err" != ""
-  match mergeFileCaches cs with
+  let absTbl := strMap (getObj p "abs")
+  let absOf : String → String := fun s => (Arca.Model.EngineApi.lookup s absTbl).getD s
+  match mergeFileCaches absOf cs with
   | .error e =>
     if obsErr && getStr res "err" == apiErrName e then [] else
       [Json.mkObj [("merge", p), ("why", "model: error"), ("model", apiErrName e)]]
